@@ -665,6 +665,15 @@ def _do_op(op, detail):
             canon._canon_table_value(api.opmap), canon._canon_table_value(api.opname),
             canon._canon_table_value(api.hasconst), canon._canon_table_value(api.hasname), api.EXTENDED_ARG,
             api.HAVE_ARGUMENT])}
+        # the informational entry points first (they must not depend on whether instruction decoding works)
+        out = io.StringIO()
+        try:
+            api.show_code(co, file=out)
+            api.show_code(co)  # the stdout flavour takes another path through cross_dis (is_pypy is passed on)
+            info = api.code_info(co)
+        except Exception as e:
+            info = "raised %s" % type(e).__name__
+        res["text"] = out.getvalue() + "\n" + str(info) + "\n" + str(api.pretty_flags(getattr(co, "co_flags", 0)))
         ins = []
         for x in api.get_instructions(co):
             ins.append([canon.canon_value(f, ver) for f in (x.offset, x.opcode, x.opname, x.arg, x.argval, x.argrepr,
